@@ -11,6 +11,7 @@ import (
 
 	"verif/tool/goan"
 	"verif/tool/load"
+	"verif/tool/tmpl"
 )
 
 func init() { register("C06", checkC06) }
@@ -18,10 +19,6 @@ func init() { register("C06", checkC06) }
 var securityEmitRules = []emitRule{
 	{Name: "Authorize is called for operations with a requirement", Trees: []string{"serverOperation"}, Rx: `uprinc, aCtx, err := ⟦\.ReceiverName⟧\.Context\.Authorize\(r, route\)\s*if err != nil \{\s*⟦\.ReceiverName⟧\.Context\.Respond\(rw, r, route\.Produces, route, err\)\s*return\s*\}`, Need: []guardAtom{{"Authorized", +1}}, Min: 1,
 		Why: "an operation with an effective security requirement authenticates the request and answers the authentication error without going further"},
-	{Name: "the principal is the authenticator's result", Trees: []string{"serverOperation"}, Rx: `principal = uprincuprinc\.\(`, Need: []guardAtom{{"Authorized", +1}}, Min: 1,
-		Why: "the principal handed to the handler is the value Authorize returned"},
-	{Name: "the handler receives the principal", Trees: []string{"serverOperation"}, Rx: `\.Handler\.Handle\(Params, principal\)`, Min: 1,
-		Why: "the handler of an authorized operation receives the principal"},
 	{Name: "one authenticator case per security definition", Trees: []string{"serverBuilder"}, Rx: `case "⟦\.ID⟧":`, Range: ".SecurityDefinitions", Min: 1,
 		Why: "every scheme the spec defines gets an authenticator under its own name"},
 	{Name: "basic schemes use the basic authenticator", Trees: []string{"serverBuilder"}, Rx: `result\[name\] = ⟦\.ReceiverName⟧\.BasicAuthenticator\(`, Need: []guardAtom{{"IsBasicAuth", +1}}, Min: 1,
@@ -45,7 +42,7 @@ func checkC06(c *Ctx) {
 		"Decides flag computation, placement and wiring; the evaluation of AND/OR alternatives happens at run time in go-openapi/runtime from the embedded flattened spec (C10) and is not decided here.")
 	c.Assume("go-openapi/analysis.SecurityRequirementsFor implements 'operation list if present, else global' and returns an empty list for `security: []`; go-openapi/runtime middleware.Context.Authorize evaluates the alternatives of the matched route")
 	ev, _, gen := c.evalTemplates("")
-	c.Rule("C06.R2.emissions", "authentication, principal hand-over and authenticator wiring are emitted under their own flags", 15)
+	c.Rule("C06.R2.emissions", "authentication, principal hand-over and authenticator wiring are emitted under their own flags", 13)
 	checkEmitRules(c, "C06.R2.emissions", ev, securityEmitRules)
 
 	c.Rule("C06.R2.serve-order", "ServeHTTP authenticates before it binds parameters and before it calls the handler", 1)
@@ -56,9 +53,11 @@ func checkC06(c *Ctx) {
 			"an unauthenticated request must be answered 401/403 before anything else is decided about it, and never reach the handler",
 			`\.Context\.Authorize\(r, route\)`, `\.Context\.BindValidRequest\(r, route, &Params\)`, `\.Handler\.Handle\(Params`)
 		// the un-authorized variant of Handle exists only under not .Authorized
-		n := len(regexp.MustCompile(`\.Handler\.Handle\(Params`).FindAllString(l.Text, -1))
+		n := len(regexp.MustCompile(`\.Handler\.Handle\(\w+`).FindAllString(l.Text, -1))
 		c.Check(n == 1, "C06.R2.serve-order", "serverOperation › ServeHTTP › single Handle call", l.Tree.File, "1 call", fmt.Sprintf("%d Handle calls: one of them may bypass the Authorize block", n))
 	}
+	checkPrincipalFlow(c, ev)
+	checkAdapterArgs(c, ev)
 	checkAuthedFlag(c, gen)
 	checkSchemeKinds(c, gen)
 	// the requirements are evaluated at run time from the embedded spec: that file must be
@@ -183,4 +182,64 @@ func checkSchemeKinds(c *Ctx, gen *packages.Package) {
 		return true
 	})
 	c.Check(okID, rule, "generator.gatherSecuritySchemes › ID is the definition's key", c.posOf(gen, fd.Pos()), "ID: <range key>", "the scheme ID is not the key under which the spec defines it: requirements naming the scheme find no authenticator")
+}
+
+var adapterRx = regexp.MustCompile(`func\(([^)]*)\) \(interface\{\}, error\) \{\s*return\s*⟦\.ReceiverName⟧\.⟦pascalize \.ID⟧Auth\(([^)]*)\)`)
+
+// checkAdapterArgs: the adapter closures of AuthenticatorsFor hand their own parameters to the
+// scheme's function in the order they receive them (user before password, token before scopes).
+func checkAdapterArgs(c *Ctx, ev *tmpl.Evaluator) {
+	rule := "C06.R2.adapter-args"
+	c.Rule(rule, "the authenticator adapter closures pass their parameters on unchanged and in order", 3)
+	l := linearOf(c, ev, "serverBuilder")
+	if l == nil {
+		c.Anchor(rule, "template serverBuilder", "not found")
+		return
+	}
+	k := 0
+	for _, oc := range l.Find(adapterRx) {
+		k++
+		var params, args []string
+		for _, piece := range strings.Split(oc.Match[1], ",") {
+			f := strings.Fields(piece)
+			if len(f) > 0 {
+				params = append(params, f[0])
+			}
+		}
+		for _, a := range strings.Split(oc.Match[2], ",") {
+			args = append(args, strings.TrimSpace(a))
+		}
+		ok := strings.Join(params, ",") == strings.Join(args, ",")
+		c.Check(ok, rule, fmt.Sprintf("serverBuilder › AuthenticatorsFor › adapter closure #%d", k), l.Tree.PosStr(oc.Pos), "func("+strings.Join(params, ", ")+") → Auth("+strings.Join(args, ", ")+")",
+			fmt.Sprintf("the adapter receives (%s) but calls the scheme's function with (%s): credentials reach the user's authenticator in the wrong positions", strings.Join(params, ", "), strings.Join(args, ", ")))
+	}
+	if k < 3 {
+		c.Unk(rule, "serverBuilder › AuthenticatorsFor › adapter closures", l.Tree.File, fmt.Sprintf("%d adapter closures found, expected one per scheme kind (3)", k))
+	}
+}
+
+// checkPrincipalFlow: the value Authorize returns is the one converted into the principal that
+// Handle receives (variables are followed by their role, not by their name).
+func checkPrincipalFlow(c *Ctx, ev *tmpl.Evaluator) {
+	rule := "C06.R2.principal-flow"
+	c.Rule(rule, "the principal handed to the handler is the value Context.Authorize returned", 1)
+	l := linearOf(c, ev, "serverOperation")
+	if l == nil {
+		c.Anchor(rule, "template serverOperation", "not found")
+		return
+	}
+	why := ""
+	m1 := regexp.MustCompile(`(\w+), \w+, \w+ := ⟦\.ReceiverName⟧\.Context\.Authorize\(`).FindStringSubmatch(l.Text)
+	if m1 == nil {
+		why = "the result of Context.Authorize is not bound"
+	} else {
+		up := regexp.QuoteMeta(m1[1])
+		m2 := regexp.MustCompile(`(\w+) = ` + up + `(` + up + `)?\b`).FindStringSubmatch(l.Text)
+		if m2 == nil {
+			why = "no variable is assigned from " + m1[1] + ", the value Authorize returned"
+		} else if !regexp.MustCompile(`\.Handler\.Handle\(\w+, ` + regexp.QuoteMeta(m2[1]) + `\)`).MatchString(l.Text) {
+			why = "Handle is not called with " + m2[1] + ", the principal derived from Authorize's result"
+		}
+	}
+	c.Check(why == "", rule, "serverOperation › ServeHTTP › Authorize result → principal → Handle", l.Tree.File, "followed through its two assignments", why+": the handler does not receive the authenticator's principal")
 }
